@@ -600,6 +600,8 @@ class Lib:
             ents = it.entries.items()
             if it.ordered:
                 ents = sorted(ents, key=lambda kv: repr(kv[0]))
+            elif getattr(self.I, 'symbolic_hash_order', False):
+                ents = self._hash_order(list(ents), lambda kv: kv[1][0])
             return [(g, RTuple((kv, v))) for _, (g, kv, v) in ents]
         if isinstance(it, REnum) and it.ty == 'Option':
             return [(True, it.payload[0])] if it.variant == 'Some' else []
@@ -608,6 +610,18 @@ class Lib:
             if isinstance(s, int) and isinstance(t, int):
                 return [(True, i) for i in range(s, t + (1 if it.get('closed') else 0))]
         raise Unsupported('iteration over %r' % (it,), node)
+
+    def _hash_order(self, ents, guard_of):
+        """Iteration order of a hash container is arbitrary: for small containers whose entries are all certainly present the
+        order is a solver-chosen permutation (one choice per iteration; a driver opts in with I.symbolic_hash_order)."""
+        import itertools
+        n = len(ents)
+        if not (2 <= n <= 3) or any(guard_of(e) is not True for e in ents):
+            return ents
+        perms = list(itertools.permutations(range(n)))
+        sel = self.I.fresh('hash_order', 'bv', 3)
+        k = self.I.choose([sel == i for i in range(len(perms))])
+        return [ents[j] for j in perms[k]]
 
     def mk_iter(self, items):
         return Opaque('Iter', items=tuple(items))
@@ -1400,6 +1414,23 @@ class Lib:
                 if r.variant == 'Some':
                     return r
             return NONE
+        if method in ('dedup', 'dedup_with_count', 'unique'):
+            # itertools adaptors over certainly present, comparable elements (presence is resolved by forking first)
+            its = self._forked(items)
+            out = []
+            for _, x in its:
+                xv = I.deref(x)
+                if method == 'unique':
+                    if not any(self._concrete_eq(xv, I.deref(y), node) for _, y in out):
+                        out.append((True, x))
+                    continue
+                if out and self._concrete_eq(xv, I.deref(out[-1][1] if method == 'dedup' else out[-1][1].items[1]), node):
+                    if method == 'dedup_with_count':
+                        c, e0 = out[-1][1].items
+                        out[-1] = (True, RTuple((c + 1, e0)))
+                    continue
+                out.append((True, x if method == 'dedup' else RTuple((1, x))))
+            return self.mk_iter(out)
         if method == 'count':
             return self._set_len(RSet({i: (g, None) for i, (g, _) in enumerate(items)}))
         if method == 'next':
@@ -1460,6 +1491,16 @@ class Lib:
         if method == 'buffer_unordered':
             return Opaque('Stream', items=tuple(items))
         raise Unsupported('Iterator::%s' % method, node)
+
+    def _concrete_eq(self, a, b, node):
+        r = self.value_eq(a, b)
+        if r is True or r is False:
+            return r
+        if z3.is_true(r):
+            return True
+        if z3.is_false(r):
+            return False
+        return self.I.branch(r)
 
     def _forked(self, items):
         """Resolve symbolic presence of items by forking (used where a closure is applied to the element)."""
@@ -1712,6 +1753,13 @@ class Lib:
             mref = v.get('ref')
             m = I.load(mref)
             k = v.get('key')
+            if method == 'and_modify':
+                e = m.entries.get(k)
+                if e is not None and e[0] is not False:
+                    if e[0] is not True:
+                        raise Unsupported('entry() on symbolic-presence key', node)
+                    I.call_value(args[0], [Ref(mref.addr, mref.path + (('k', k),))], node)
+                return v
             if method in ('or_insert_with', 'or_insert', 'or_default'):
                 e = m.entries.get(k)
                 if e is None or e[0] is False:
